@@ -62,8 +62,8 @@ Fixpoint split_slash (l : bytes) : list bytes :=
   end.
 
 Definition is_nilb (b : bytes) : bool := match b with [] => true | _ => false end.
-Definition is_dot (b : bytes) : bool := match b with [46] => true | _ => false end.
-Definition is_dotdot (b : bytes) : bool := match b with [46; 46] => true | _ => false end.
+Definition is_dot (b : bytes) : bool := bytes_eqb b [46].
+Definition is_dotdot (b : bytes) : bool := bytes_eqb b [46; 46].
 
 (* one path element against the stack of kept elements (innermost first) *)
 Definition clean_step (rooted : bool) (stack : list bytes) (c : bytes) : list bytes :=
@@ -78,7 +78,7 @@ Definition clean_step (rooted : bool) (stack : list bytes) (c : bytes) : list by
 Definition clean_comps (rooted : bool) (cs : list bytes) : list bytes :=
   rev (fold_left (clean_step rooted) cs []).
 
-Definition is_rooted (p : bytes) : bool := match p with 47 :: _ => true | _ => false end.
+Definition is_rooted (p : bytes) : bool := match p with c :: _ => c =? 47 | [] => false end.
 
 Definition render_path (rooted : bool) (cs : list bytes) : bytes :=
   if rooted then 47 :: join [47] cs
@@ -230,8 +230,9 @@ Fixpoint parse_flags (r v : bool) (args : list bytes) : flagres :=
   | [] => FOk r v []
   | s :: rest =>
       match s with
-      | 45 :: c :: s' =>
-          if (c =? 45) && is_nilb s' then FOk r v rest            (* "--" ends the flags *)
+      | c0 :: c :: s' =>
+          if negb (c0 =? 45) then FOk r v args                    (* first non-flag argument *)
+          else if (c =? 45) && is_nilb s' then FOk r v rest       (* "--" ends the flags *)
           else
             let name := if c =? 45 then s' else c :: s' in
             match name with
@@ -251,7 +252,7 @@ Fixpoint parse_flags (r v : bool) (args : list bytes) : flagres :=
                   else if bytes_eqb nm (bs "help") || bytes_eqb nm (bs "h") then FHelp
                   else FError
             end
-      | _ => FOk r v args                                         (* first non-flag argument *)
+      | _ => FOk r v args                                         (* "", "-", one byte: not a flag *)
       end
   end.
 
@@ -398,9 +399,13 @@ Fixpoint paths_ok (n : node) (f : bytes) : bool :=
 Definition paths_ok_in (ch : list node) (f : bytes) : bool :=
   negb (too_long f) && forallb (fun c => paths_ok c f) ch.
 
+(* the events that write to standard output *)
 Definition is_report (e : event) : bool :=
-  match e with Report _ _ | ReportEmpty _ | StdinReport _ => true | _ => false end.
+  match e with Report _ _ | ReportEmpty _ | StdinReport _ | VersionLine => true | _ => false end.
 Definition reports (es : list event) : list event := filter is_report es.
+
+(* an argument that is neither a flag nor the "-" of standard input *)
+Definition plain_arg (a : bytes) : bool := match a with c :: _ => negb (c =? 45) | [] => false end.
 
 (* names a directory entry can have: not empty, not "." or "..", no '/' and no NUL *)
 Definition name_ok (a : bytes) : bool :=
